@@ -29,6 +29,18 @@ CHECKS["C02"] = dict(
 CHECKS["C11"] = dict(
    text="Lifecycle monitor over the concatenated update stream of all invocations of every explored execution (C01 space): at most one START per attempt, START before RETRY/SUCCEED/FAIL, nothing after a terminal record or for an operation already held terminal, parent context START before a child's first update, EXECUTION record at most once and last.",
    note=SIM_NOTE, technique=SIM_TECH, design="6/C11", engine="vsched+durable-sim")
+CHECKS["C03"] = dict(
+   text="Write-ahead oracle evaluated at the instant of every delivery against the backend's own table: a durable call returns (or raises its final error) only if the backend row is already terminal; PENDING only if every parked position has its wake-up record; empty-payload SUCCEEDED/FAILED only after the EXECUTION record. Explored: 22 one/two-unit programs over all operation kinds under every schedule with <=2 deviations (thread choices, timer-first) and with every API call black-holed or failed.",
+   note=SIM_NOTE, technique=SIM_TECH, design="6/C03", engine="vsched+durable-sim")
+CHECKS["C04"] = dict(
+   text="One at-most-once step in four placements x 5 retry strategies x 4 behaviours, every crash point (pairs for the stand-alone placement; pairs everywhere in thorough), three policies; oracle from the world's entry log: at most one function entry per (operation, attempt) and the backend row is STARTED at every entry.",
+   note=SIM_NOTE, technique=SIM_TECH, design="6/C04", engine="vsched+durable-sim")
+CHECKS["C07"] = dict(
+   text="Programs mixing waits, retries, callbacks, invokes, wait_for_condition at top level and in 2-3 branch parallel/map shapes (branch functions of 0/2/5 virtual seconds, nesting 2, max_concurrency, zero items), all delivery orders incl. a spurious re-invocation, every crash point, three policies, +1 scheduling/timer deviation; oracle: at PENDING every parked position is registered, no non-orphan user function is still running, something is armed; every execution terminates within the invocation bound and every invocation ends before the virtual horizon and step cap (deadlock, blocking and spinning all detected).",
+   note=SIM_NOTE, technique=SIM_TECH, design="6/C07", engine="vsched+durable-sim")
+CHECKS["C10"] = dict(
+   text="Early-completion configurations x 10 survivor positions for parallel at top level, inside a child context and nested, all schedules with <=1 (quick) / <=2 (thorough) deviations and three policies; oracle on the backend's update stream and the world's entry log: no descendant update after the ancestor's completion record, no descendant user function entered after it was applied.",
+   note=SIM_NOTE, technique=SIM_TECH, design="6/C10", engine="vsched+durable-sim")
 NOT_YET = {}
 
 def main():
